@@ -370,6 +370,17 @@ def check_property_file(prop, extra_targets=()):
             "axioms": axioms, "log": out[-2000:]}
 
 
+def coqchk_property(prop, timeout=3000):
+    """thorough tier: re-check the compiled property file and everything it depends on with the
+    independent checker; returns (ok, summary text)"""
+    p = subprocess.run(["timeout", str(timeout), "coqchk", "-silent", "-o", "-Q", ".", "DRF", "DRF.Properties.%s" % prop],
+                       cwd=COQ, capture_output=True, text=True)
+    out = p.stdout + p.stderr
+    i = out.find("CONTEXT SUMMARY")
+    summary = out[i:] if i >= 0 else out[-1500:]
+    return p.returncode == 0, re.sub(r"\s+", " ", summary)[:1500]
+
+
 # --------------------------------------------------------------------------- extracted runners
 
 def build_runner(fam):
